@@ -104,7 +104,7 @@ func runFilterConc(cfg Cfg) {
 		logs := make([][]wop, W)
 		perWriter := cfg.N(150, 400)
 		if run == runs-1 {
-			perWriter = cfg.N(9000, 30000) // one long life: thousands of removals in maps mode
+			perWriter = cfg.N(9000, 1200) // one long life: thousands of removals in maps mode (the thorough tier has four times the writers)
 			s.Count("run.long-life")
 		}
 		toggle := run%2 == 0
